@@ -398,7 +398,10 @@ class SchemaGen:
         return s, self.r.choice(alts)[1]
 
     def derived_(self, depth):
-        k = self.r.choice(["add", "required", "native", "native", "subst", "subst2", "alias2", "union_alias", "required_add"])
+        kinds = ["add", "required", "native", "native", "subst", "subst2", "required_add"]
+        if self.aliases:
+            kinds += ["alias2", "union_alias"]     # only where type aliases are inside the property under test
+        k = self.r.choice(kinds)
         self._count("derived:" + k)
         if k in ("subst", "subst2"):
             # the result of an operation is a schema like any other: substitute the witness (once; or a part of it, then all)
